@@ -1,4 +1,502 @@
-//! handshake: not built yet.
-pub fn run(args: &vh_common::Args) {
-    vh_common::unknown(args)
+//! Handshake (C25): the real `TopicHandshakeInitiator` / `TopicHandshakeAcceptor` against
+//! spec/Handshake.
+//!
+//! Both real `Protocol::run` futures are held by the harness and polled by hand (one poll = one
+//! `RunI` / `RunA` action of the spec); the two directions of the connection are harness-owned
+//! queues (`wire.rs`) on which the adversary actions of the spec are performed literally
+//! (deliver / substitute / truncate / teardown, k-th sink operation fails).
+//!
+//! replay: every schedule exported by TLC is executed; after every step both parties' result
+//!         (still running / Ok / Err), the acceptor's output topic and the messages written so far
+//!         are compared with the state TLC computed. "Hangs" = the model says the party has
+//!         returned but the real future is still pending although nothing can wake it.
+//! record: seeded random schedules with random faults on the real code, one event per action,
+//!         validated by TLC against Trace_Handshake.tla.
+use std::collections::{BTreeMap, VecDeque};
+use std::future::Future;
+use std::pin::Pin;
+use std::sync::atomic::Ordering;
+use std::task::Poll;
+
+use futures_channel::mpsc;
+use p2panda_core::{Hash, Topic};
+use p2panda_sync::protocols::{
+    TopicHandshakeAcceptor, TopicHandshakeEvent, TopicHandshakeInitiator, TopicHandshakeMessage,
+};
+use p2panda_sync::traits::Protocol;
+use vh_common::{Args, Outcome, Rng, TraceWriter, Value, catch, json, read_ndjson, unknown};
+
+use crate::wire::{Inbound, Outbound, count_waker, poll_once};
+
+type Msg = TopicHandshakeMessage<Topic>;
+type Evt = TopicHandshakeEvent<Topic>;
+
+pub fn run(args: &Args) {
+    match args.mode.as_str() {
+        "replay" => replay(args),
+        "record" => record(args),
+        _ => unknown(args),
+    }
+}
+
+struct Names {
+    by_topic: BTreeMap<[u8; 32], String>,
+}
+
+impl Names {
+    fn new() -> Self {
+        Names { by_topic: BTreeMap::new() }
+    }
+    fn topic(&mut self, name: &str) -> Topic {
+        let t = Topic::from(Hash::digest(name.as_bytes()));
+        self.by_topic.insert(*t.as_bytes(), name.to_string());
+        t
+    }
+    fn name(&self, t: &Topic) -> String {
+        self.by_topic.get(t.as_bytes()).cloned().unwrap_or_else(|| format!("?{}", t.to_hex()))
+    }
+    fn msg_json(&self, m: &Msg) -> Value {
+        match m {
+            TopicHandshakeMessage::Topic(t) => json!({"k": "Topic", "t": self.name(t)}),
+            TopicHandshakeMessage::Done => json!({"k": "Done", "t": "-"}),
+        }
+    }
+    fn ev_json(&self, e: &Evt) -> Value {
+        match e {
+            TopicHandshakeEvent::Initiate(t) => json!({"e": "Initiate", "t": self.name(t)}),
+            TopicHandshakeEvent::Accept => json!({"e": "Accept", "t": "-"}),
+            TopicHandshakeEvent::TopicReceived(t) => json!({"e": "TopicReceived", "t": self.name(t)}),
+            TopicHandshakeEvent::Done(t) => json!({"e": "Done", "t": self.name(t)}),
+        }
+    }
+    /// spec message -> what the receiver's stream yields
+    fn item_from_json(&mut self, m: &Value) -> Result<Msg, String> {
+        match m["k"].as_str().expect("k") {
+            "Topic" => Ok(TopicHandshakeMessage::Topic(self.topic(m["t"].as_str().expect("t")))),
+            "Done" => Ok(TopicHandshakeMessage::Done),
+            "Bad" => Err("undecodable frame".to_string()),
+            other => panic!("unknown message kind {other}"),
+        }
+    }
+}
+
+type PartyFut = Pin<Box<dyn Future<Output = Result<Option<Topic>, String>>>>;
+
+/// One real party with its connection ends.
+struct Party {
+    fut: PartyFut,
+    /// `None` while running
+    result: Option<Result<Option<Topic>, String>>,
+    out: Outbound<Msg>,
+    inb: Inbound<Msg>,
+    events_rx: mpsc::Receiver<Evt>,
+    events: Vec<Evt>,
+    panicked: Option<String>,
+}
+
+impl Party {
+    fn initiator(topic: Topic, fail_at: u64) -> Party {
+        let out = Outbound::<Msg>::new(fail_at);
+        let inb = Inbound::<Msg>::new();
+        let (event_tx, events_rx) = mpsc::channel::<Evt>(64);
+        let (mut sink, mut stream) = (out.clone(), inb.clone());
+        let fut: PartyFut = Box::pin(async move {
+            let protocol = TopicHandshakeInitiator::<Topic, Evt>::new(topic, event_tx);
+            protocol.run(&mut sink, &mut stream).await.map(|()| None).map_err(|e| format!("{e:?}"))
+        });
+        Party { fut, result: None, out, inb, events_rx, events: vec![], panicked: None }
+    }
+
+    fn acceptor(fail_at: u64) -> Party {
+        let out = Outbound::<Msg>::new(fail_at);
+        let inb = Inbound::<Msg>::new();
+        let (event_tx, events_rx) = mpsc::channel::<Evt>(64);
+        let (mut sink, mut stream) = (out.clone(), inb.clone());
+        let fut: PartyFut = Box::pin(async move {
+            let protocol = TopicHandshakeAcceptor::<Topic, Evt>::new(event_tx);
+            protocol.run(&mut sink, &mut stream).await.map(Some).map_err(|e| format!("{e:?}"))
+        });
+        Party { fut, result: None, out, inb, events_rx, events: vec![], panicked: None }
+    }
+
+    /// One poll of the real future. Returns the number of wake-ups the poll caused.
+    fn poll(&mut self) -> u64 {
+        if self.result.is_some() || self.panicked.is_some() {
+            return 0;
+        }
+        let (cw, waker) = count_waker();
+        self.inb.begin_poll();
+        let fut = &mut self.fut;
+        match catch(|| poll_once(fut, &waker)) {
+            Ok(Poll::Ready(r)) => self.result = Some(r),
+            Ok(Poll::Pending) => {}
+            Err(p) => self.panicked = Some(p),
+        }
+        while let Ok(e) = self.events_rx.try_recv() {
+            self.events.push(e);
+        }
+        cw.0.load(Ordering::SeqCst)
+    }
+
+    fn res(&self) -> &'static str {
+        match &self.result {
+            None => "run",
+            Some(Ok(_)) => "ok",
+            Some(Err(_)) => "err",
+        }
+    }
+
+    fn obs(&self, names: &Names) -> Value {
+        let out = match &self.result {
+            Some(Ok(Some(t))) => names.name(t),
+            _ => "-".to_string(),
+        };
+        json!({
+            "res": self.res(),
+            "out": out,
+            "sent": self.out.sent().iter().map(|m| names.msg_json(m)).collect::<Vec<_>>(),
+            "ev": self.events.iter().map(|e| names.ev_json(e)).collect::<Vec<_>>(),
+        })
+    }
+}
+
+/// The connection between the two real parties, under the harness' (= the adversary's) control.
+struct World {
+    names: Names,
+    ini: Party,
+    acc: Party,
+    flight_ia: VecDeque<Msg>,
+    flight_ai: VecDeque<Msg>,
+    cut_ia: bool,
+    cut_ai: bool,
+    eos_to_acc: bool,
+    eos_to_ini: bool,
+    /// "input changed since the last poll" (a poll can make progress)
+    dirty_i: bool,
+    dirty_a: bool,
+}
+
+impl World {
+    fn new(topic_name: &str, fail_i: u64, fail_a: u64) -> World {
+        let mut names = Names::new();
+        let topic = names.topic(topic_name);
+        World {
+            names,
+            ini: Party::initiator(topic, fail_i),
+            acc: Party::acceptor(fail_a),
+            flight_ia: VecDeque::new(),
+            flight_ai: VecDeque::new(),
+            cut_ia: false,
+            cut_ai: false,
+            eos_to_acc: false,
+            eos_to_ini: false,
+            dirty_i: true,
+            dirty_a: true,
+        }
+    }
+
+    fn run_i(&mut self) {
+        self.ini.poll();
+        self.dirty_i = false;
+        let new = self.ini.out.take_flight();
+        if !self.cut_ia {
+            self.flight_ia.extend(new);
+        }
+    }
+
+    fn run_a(&mut self) {
+        self.acc.poll();
+        self.dirty_a = false;
+        let new = self.acc.out.take_flight();
+        if !self.cut_ai {
+            self.flight_ai.extend(new);
+        }
+    }
+
+    fn flight(&mut self, d: &str) -> &mut VecDeque<Msg> {
+        if d == "ia" { &mut self.flight_ia } else { &mut self.flight_ai }
+    }
+
+    fn give(&mut self, d: &str, item: Result<Msg, String>) {
+        if d == "ia" {
+            self.acc.inb.give(item);
+            self.dirty_a = true;
+        } else {
+            self.ini.inb.give(item);
+            self.dirty_i = true;
+        }
+    }
+
+    fn end_stream(&mut self, d: &str) {
+        if d == "ia" {
+            self.acc.inb.end();
+            self.eos_to_acc = true;
+            self.dirty_a = true;
+        } else {
+            self.ini.inb.end();
+            self.eos_to_ini = true;
+            self.dirty_i = true;
+        }
+    }
+
+    fn deliver(&mut self, d: &str) -> Option<Msg> {
+        let m = self.flight(d).pop_front()?;
+        self.give(d, Ok(m.clone()));
+        Some(m)
+    }
+
+    fn substitute(&mut self, d: &str, m: &Value) -> bool {
+        if self.flight(d).pop_front().is_none() {
+            return false;
+        }
+        let item = self.names.item_from_json(m);
+        self.give(d, item);
+        true
+    }
+
+    fn truncate(&mut self, d: &str) {
+        if d == "ia" { self.cut_ia = true } else { self.cut_ai = true }
+        self.flight(d).clear();
+        self.end_stream(d);
+    }
+
+    fn obs(&self) -> Value {
+        json!({"i": self.ini.obs(&self.names), "a": self.acc.obs(&self.names)})
+    }
+
+    /// The party is pending and nothing is left that could wake it: polling it again (several
+    /// times) neither completes it nor triggers a wake-up.
+    fn confirm_hang(party: &mut Party) -> bool {
+        for _ in 0..3 {
+            let wakes = party.poll();
+            if party.result.is_some() || party.panicked.is_some() || wakes > 0 {
+                return false;
+            }
+        }
+        true
+    }
+}
+
+/// Compares one party's observable with the spec's; returns (signature, detail) on mismatch.
+fn compare_party(who: &str, got: &Value, want: &Value, party: &mut Party, out: &mut Outcome) -> Option<(String, String)> {
+    if let Some(p) = &party.panicked {
+        return Some((format!("{who}-panics"), p.clone()));
+    }
+    let (gr, wr) = (got["res"].as_str().unwrap(), want["res"].as_str().unwrap());
+    if gr != wr {
+        let sig = match (gr, wr) {
+            ("run", _) => {
+                if World::confirm_hang(party) {
+                    format!("{who}-hangs")
+                } else {
+                    format!("{who}-result-differs-from-spec")
+                }
+            }
+            ("ok", "err") => format!("{who}-no-error-on-fault"),
+            ("err", "ok") => format!("{who}-spurious-error"),
+            _ => format!("{who}-result-differs-from-spec"),
+        };
+        return Some((sig, format!("{who}: real run is '{gr}' ({:?}), spec says '{wr}'", party.result)));
+    }
+    if got["out"] != want["out"] {
+        return Some((
+            "acceptor-wrong-topic".to_string(),
+            format!("{who}: real output topic {}, spec says {}", got["out"], want["out"]),
+        ));
+    }
+    if got["sent"] != want["sent"] {
+        return Some((
+            format!("{who}-messages-differ-from-spec"),
+            format!("{who}: wrote {}, spec says {}", got["sent"], want["sent"]),
+        ));
+    }
+    if got["ev"] != want["ev"] {
+        // events are not part of C25's statement: counted, not judged
+        out.count(&format!("{who}_events_differ_from_spec"));
+    }
+    None
+}
+
+fn replay(args: &Args) {
+    let behaviours = read_ndjson(args.input.as_ref().expect("--in"));
+    let mut out = Outcome::new(
+        args,
+        "every TLC-exported schedule (polls of the two real run() futures interleaved with deliver / substitute / truncate / \
+         teardown and sink failures) executed on the real TopicHandshakeInitiator/Acceptor<Topic>; result, output topic and \
+         written messages of both parties compared after every step; non-trivial = at least one fault in the schedule; \
+         distinct by schedule",
+    );
+    for b in &behaviours {
+        out.eval();
+        let steps = b["steps"].as_array().expect("steps");
+        let fail_i = b["failI"].as_u64().expect("failI");
+        let fail_a = b["failA"].as_u64().expect("failA");
+        let mut w = World::new(b["topic"].as_str().expect("topic"), fail_i, fail_a);
+        let mut faulty = fail_i != 0 || fail_a != 0;
+        let mut failed = false;
+        for (k, s) in steps.iter().enumerate() {
+            let d = s["d"].as_str().unwrap_or("-").to_string();
+            match s["act"].as_str().expect("act") {
+                "RunI" => w.run_i(),
+                "RunA" => w.run_a(),
+                "Deliver" => {
+                    if w.deliver(&d).is_none() {
+                        out.violation("C25", "messages-differ-from-spec", format!("step {k}: spec delivers on {d} but the real party wrote nothing"), b.clone());
+                        failed = true;
+                        break;
+                    }
+                }
+                "Substitute" => {
+                    faulty = true;
+                    if !w.substitute(&d, &s["m"]) {
+                        out.violation("C25", "messages-differ-from-spec", format!("step {k}: spec substitutes on {d} but the real party wrote nothing"), b.clone());
+                        failed = true;
+                        break;
+                    }
+                }
+                "Truncate" => {
+                    faulty = true;
+                    w.truncate(&d)
+                }
+                "Teardown" => w.end_stream(&d),
+                other => {
+                    eprintln!("unknown action {other}");
+                    std::process::exit(2);
+                }
+            }
+            let got = w.obs();
+            let want = &s["obs"];
+            let mut mismatch = compare_party("initiator", &got["i"], &want["i"], &mut w.ini, &mut out);
+            if mismatch.is_none() {
+                mismatch = compare_party("acceptor", &got["a"], &want["a"], &mut w.acc, &mut out);
+            }
+            if let Some((sig, detail)) = mismatch {
+                out.violation("C25", &sig, format!("after step {k} ({}): {detail}", s["act"]), b.clone());
+                failed = true;
+                break;
+            }
+        }
+        if faulty {
+            out.mark_distinct(steps.iter().map(|s| format!("{}{}{}", s["act"].as_str().unwrap(), s["d"].as_str().unwrap(), s["m"]["k"].as_str().unwrap_or(""))).collect::<Vec<_>>().join(",") + &format!("|{}|{fail_i}|{fail_a}", b["topic"]));
+        }
+        if !failed {
+            out.count(&format!("end_i_{}_a_{}", w.ini.res(), w.acc.res()));
+            out.sample(b.clone());
+        }
+    }
+    out.write(args);
+}
+
+fn record(args: &Args) {
+    let mut rng = Rng::new(args.seed);
+    let n = if args.n > 0 { args.n } else { 200 };
+    let mut trace = TraceWriter::create(args.out.as_ref().expect("--out"));
+    let mut out = Outcome::new(
+        args,
+        "seeded random schedules on the real handshake parties (random topic of 10, random sink-failure positions, at every \
+         step a random enabled action incl. substitution/truncation with probability 1/6 each); one event per action with both \
+         parties' observables; distinct by run",
+    );
+    let kinds = ["Done", "Bad", "Topic"];
+    for run in 0..n {
+        out.eval();
+        let topic = format!("t{}", rng.below(10));
+        let fail_i = if rng.chance(1, 6) { rng.range(1, 3) } else { 0 };
+        let fail_a = if rng.chance(1, 6) { rng.range(1, 2) } else { 0 };
+        let mut w = World::new(&topic, fail_i, fail_a);
+        trace.event(json!({"ev": "Reset", "run": run, "topic": topic, "failI": fail_i, "failA": fail_a}));
+        let mut steps = 0;
+        loop {
+            steps += 1;
+            if steps > 60 {
+                break;
+            }
+            // enabled actions, mirroring the guards of the spec
+            let mut enabled: Vec<(&str, &str)> = vec![];
+            if w.ini.result.is_none() && w.dirty_i {
+                enabled.push(("RunI", "-"));
+            }
+            if w.acc.result.is_none() && w.dirty_a {
+                enabled.push(("RunA", "-"));
+            }
+            for d in ["ia", "ai"] {
+                let (flight_len, cut, recv_eos, sender_done) = if d == "ia" {
+                    (w.flight_ia.len(), w.cut_ia, w.eos_to_acc, w.ini.result.is_some())
+                } else {
+                    (w.flight_ai.len(), w.cut_ai, w.eos_to_ini, w.acc.result.is_some())
+                };
+                if flight_len > 0 {
+                    enabled.push(("Deliver", d));
+                    enabled.push(("Deliver", d));
+                    enabled.push(("Deliver", d));
+                    enabled.push(("Deliver", d));
+                    enabled.push(("Substitute", d));
+                }
+                if !cut && !recv_eos && rng.chance(1, 6) {
+                    enabled.push(("Truncate", d));
+                }
+                if sender_done && flight_len == 0 && !recv_eos {
+                    enabled.push(("Teardown", d));
+                }
+            }
+            if enabled.is_empty() {
+                break;
+            }
+            let (act, d) = *rng.pick(&enabled);
+            let mut ev = json!({"ev": act, "d": d});
+            match act {
+                "RunI" => w.run_i(),
+                "RunA" => w.run_a(),
+                "Deliver" => {
+                    let m = w.deliver(d).expect("flight non-empty");
+                    ev["m"] = w.names.msg_json(&m);
+                }
+                "Substitute" => {
+                    let head_msg = w.flight(d).front().expect("flight non-empty").clone();
+                    let head = w.names.msg_json(&head_msg);
+                    // any message other than the one in flight
+                    let m = loop {
+                        let k = *rng.pick(&kinds);
+                        let t = if k == "Topic" { format!("t{}", rng.below(10)) } else { "-".to_string() };
+                        let m = json!({"k": k, "t": t});
+                        if m != head {
+                            break m;
+                        }
+                    };
+                    w.substitute(d, &m);
+                    ev["m"] = m;
+                }
+                "Truncate" => w.truncate(d),
+                "Teardown" => w.end_stream(d),
+                _ => unreachable!(),
+            }
+            let obs = w.obs();
+            ev["i"] = obs["i"].clone();
+            ev["a"] = obs["a"].clone();
+            trace.event(ev);
+            for (who, p) in [("initiator", &w.ini), ("acceptor", &w.acc)] {
+                if let Some(msg) = &p.panicked {
+                    out.violation("C25", &format!("{who}-panics"), msg.clone(), json!({"run": run, "seed": args.seed}));
+                }
+            }
+            if w.ini.panicked.is_some() || w.acc.panicked.is_some() {
+                break;
+            }
+        }
+        // quiescent: nobody may be left pending (hang) - reported here, and the trace spec's
+        // NoHang invariant sees the same state
+        for (who, p) in [("initiator", &mut w.ini), ("acceptor", &mut w.acc)] {
+            if p.result.is_none() && p.panicked.is_none() && steps <= 60 && World::confirm_hang(p) {
+                out.violation("C25", &format!("{who}-hangs"), format!("run {run}: quiescent but {who} still pending"), json!({"run": run, "seed": args.seed}));
+            }
+        }
+        out.mark_distinct(format!("{run}"));
+        out.count(&format!("end_i_{}_a_{}", w.ini.res(), w.acc.res()));
+        if run < 2 {
+            out.sample(json!({"run": run, "topic": topic, "failI": fail_i, "failA": fail_a, "final": w.obs()}));
+        }
+    }
+    let (events, runs) = trace.finish();
+    out.set_trace(events, runs);
+    out.write(args);
 }
